@@ -5,6 +5,7 @@ package props
 import (
 	"bytes"
 	"crypto"
+	"crypto/sha256"
 	"crypto/x509"
 	"errors"
 	"fmt"
@@ -29,6 +30,7 @@ import (
 	"verif/ref/refauth"
 	"verif/ref/refesl"
 	"verif/ref/refp7"
+	"verif/ref/refpe"
 	"verif/shim/vtime"
 )
 
@@ -220,6 +222,42 @@ func c15SignedImage() []byte {
 	return p.Bytes()
 }
 
+const c15NegativeOp = "authenticode.Parse + Verify (reader fault; image signed by the right key over digests of incomplete readings: must never verify)"
+
+func c15UnverifiableImage() []byte {
+	img := c15Image()
+	p, err := authenticode.Parse(bytes.NewReader(img))
+	if err != nil {
+		panic(err)
+	}
+	im, err := refpe.Parse(img)
+	if err != nil {
+		panic(err)
+	}
+	rs := im.HashedRanges()
+	partial := func(n int) []byte {
+		h := sha256.New()
+		for _, r := range rs[:n] {
+			h.Write(img[r.From:r.To])
+		}
+		return h.Sum(nil)
+	}
+	for _, d := range [][]byte{{}, partial(0), partial(1), partial(len(rs) - 1), make([]byte, 32)} {
+		content, err := authenticode.CreateSpcIndirectDataContent(d, crypto.SHA256)
+		if err != nil {
+			panic(err)
+		}
+		sig, err := pkcs7.SignPKCS7(memoSignerFor(1), keys.C(1), authenticode.OIDSpcIndirectDataContent, content)
+		if err != nil {
+			panic(err)
+		}
+		if err := p.AppendSignature(sig); err != nil {
+			panic(err)
+		}
+	}
+	return p.Bytes()
+}
+
 func c15DB() (*signature.SignatureDatabase, []byte) {
 	enc := refesl.Encode([]refesl.List{refesl.Mk(refesl.SHA256, 48, refesl.Entry{Owner: ownerA, Data: fill(32, 1)}, refesl.Entry{Owner: ownerB, Data: fill(32, 2)})})
 	db, err := signature.ReadSignatureDatabase(bytes.NewReader(enc))
@@ -343,6 +381,20 @@ func c15Ops() []c15Op {
 			return c15Result{err: err}
 		}
 		return c15Result{value: fmt.Sprintf("verify=%v", ok)}
+	}))
+	// an image that does NOT verify: its signatures are made by the right key, but over what a
+	// hashing that lost its reader would come up with (no digest at all, the digest of no bytes, of
+	// the bytes before the first or the last hashed range, zeros). No reader failure may turn it
+	// into an image that verifies.
+	ops = append(ops, imgOp(c15NegativeOp, c15UnverifiableImage(), func(p *authenticode.PECOFFBinary) c15Result {
+		ok, err := p.Verify(cert)
+		if ok {
+			return c15Result{value: "verify=true"}
+		}
+		if err == nil {
+			err = errors.New("verify=false")
+		}
+		return c15Result{err: err}
 	}))
 	ops = append(ops, imgOp("authenticode.Parse + Sign (reader fault)", img, func(p *authenticode.PECOFFBinary) c15Result {
 		// the serialised object before and after, observed with the faults switched off
@@ -611,6 +663,10 @@ func init() {
 			for _, o := range c15Ops() {
 				u = append(u, "op#"+o.name)
 			}
+			// the signing operations again under a clock that has moved on by a second at every reading
+			for _, n := range c15ClockOps {
+				u = append(u, "op#"+n+"#advancing-clock")
+			}
 			return u
 		},
 		Run:    c15Run,
@@ -618,9 +674,21 @@ func init() {
 	})
 }
 
+var c15ClockOps = []string{"pkcs7.SignPKCS7", "authenticode.SignAuthenticode", "signature.SignEFIVariable", "PECOFFBinary.Sign (signer fault)", "Efivarfs.WriteSignedUpdate"}
+
 func c15Run(c *hx.Ctx, tier, unit string) {
-	vtime.Set(time.Date(2024, 5, 6, 7, 8, 9, 0, time.UTC))
+	t0 := time.Date(2024, 5, 6, 7, 8, 9, 0, time.UTC)
+	vtime.Set(t0)
 	name := strings.TrimPrefix(unit, "op#")
+	stepping := strings.HasSuffix(name, "#advancing-clock")
+	name = strings.TrimSuffix(name, "#advancing-clock")
+	// clock(): called before every run of the operation; the advancing clock starts over, so that
+	// runs reading the clock equally often see the same instants
+	clock := func() {
+		if stepping {
+			vtime.SetStepping(t0, time.Second)
+		}
+	}
 	var op *c15Op
 	for _, o := range c15Ops() {
 		if o.name == name {
@@ -634,6 +702,46 @@ func c15Run(c *hx.Ctx, tier, unit string) {
 	// fault-free run: learn the call sequence and the reference value
 	base := &faultPlan{failAt: map[int]string{}}
 	var ref c15Result
+	clock()
+	if op.name == c15NegativeOp {
+		var r0 c15Result
+		if pn := hx.Try(func() { r0 = op.run(base) }); pn != nil || r0.err == nil {
+			c.Violation("C15 "+op.name+": verifies (or ends abnormally) without any fault", map[string]any{"value": r0.value, "panic": fmt.Sprint(pn)})
+			return
+		}
+		n := base.calls
+		c.Count("dependency_calls", uint64(n))
+		c.Sample(map[string]any{"operation": op.name, "dependency_calls": n, "sequence": strings.Join(compress(base.log), " "), "fault_free_result": r0.err.Error()})
+		try := func(plan *faultPlan, desc string) {
+			if !c.Next() {
+				return
+			}
+			var r c15Result
+			pn := hx.Try(func() { r = op.run(plan) })
+			detail := map[string]any{"operation": op.name, "faults": desc, "calls_made": plan.calls, "fault_free_result": r0.err.Error()}
+			switch {
+			case pn != nil:
+				c.Outcome("terminates")
+				detail["stack"] = pn.Stack
+				c.Violation("C15 "+op.name+": ends in "+pn.String(), detail)
+			case r.err == nil:
+				c.Outcome("violation")
+				c.Violation("C15 an image that does not verify with a healthy reader verifies when the reader fails", detail)
+			default:
+				c.Outcome("error-returned")
+				if plan.effective >= 1 {
+					c.Nontrivial([]byte(op.name), []byte(desc))
+				}
+			}
+		}
+		for k := 1; k <= n; k++ {
+			for _, kd := range op.kinds {
+				try(&faultPlan{failAt: map[int]string{k: kd}}, fmt.Sprintf("call %d: %s", k, kd))
+				try(&faultPlan{failAt: map[int]string{}, from: k, fromKnd: kd}, fmt.Sprintf("every call from %d on: %s", k, kd))
+			}
+		}
+		return
+	}
 	if pn := hx.Try(func() { ref = op.run(base) }); pn != nil || ref.err != nil {
 		c.Violation("C15 "+op.name+": fails without any fault", map[string]any{"error": fmt.Sprint(ref.err, pn)})
 		return
@@ -647,10 +755,12 @@ func c15Run(c *hx.Ctx, tier, unit string) {
 			return
 		}
 		var r c15Result
+		clock()
 		pn := hx.Try(func() { r = op.run(plan) })
 		// whatever happened under the fault, the same operation on fresh objects with healthy
 		// dependencies must afterwards give the fault-free result (no state left behind)
 		var again c15Result
+		clock()
 		pn2 := hx.Try(func() { again = op.run(&faultPlan{failAt: map[int]string{}}) })
 		if pn == nil && (pn2 != nil || again.err != nil || again.value != ref.value) {
 			c.Outcome("violation")
@@ -674,7 +784,13 @@ func c15Run(c *hx.Ctx, tier, unit string) {
 			c.Outcome("fault-not-reached")
 			return
 		}
-		c.Nontrivial([]byte(op.name), []byte(desc))
+		if stepping && !strings.HasPrefix(seam, "signer") {
+			// under the advancing clock only signer faults are judged: their verdict (an error) does
+			// not depend on how often a retrying read path looked at the clock
+			c.Outcome("not-judged-under-the-advancing-clock")
+			return
+		}
+		c.Nontrivial([]byte(op.name), []byte(desc), []byte(unit))
 		if r.side == "IMAGE OBJECT CHANGED BY A FAILED SIGN" {
 			c.Outcome("violation")
 			c.Violation("C15 "+op.name+": a failed signing changes the image object", detail)
@@ -726,7 +842,7 @@ func c15Run(c *hx.Ctx, tier, unit string) {
 	if tier == "thorough" {
 		maxPairs = 200
 	}
-	if n <= maxPairs {
+	if n <= maxPairs && !stepping {
 		for k := 1; k <= n; k++ {
 			for l := k + 1; l <= n; l++ {
 				for _, kd := range op.kinds {
@@ -739,7 +855,7 @@ func c15Run(c *hx.Ctx, tier, unit string) {
 				}
 			}
 		}
-	} else {
+	} else if !stepping {
 		c.Note("%s: %d calls, pairs not enumerated (bound %d)", op.name, n, maxPairs)
 	}
 }
